@@ -861,6 +861,74 @@ func (in *Interp) jump(fr *frame, to *ssa.BasicBlock) {
 	fr.phiDone = nil
 }
 
+// tryOrChain recognises the shape a `case a, b, c:` list (or `x == a || x == b || ...`)
+// compiles to - a chain of blocks, each only comparing and branching, whose true edges all
+// lead to the same block - and decides the disjunction once instead of forking per value.
+// Conditions: every later block of the chain holds exactly one comparison and its If, is
+// entered only from its predecessor in the chain, and the common target has no phi nodes
+// (so it cannot observe which comparison succeeded). Returns true if control was transferred.
+func (in *Interp) tryOrChain(fr *frame, i *ssa.If, c *Term) bool {
+	if in.ex.cfg.NoMerge || in.spec {
+		return false
+	}
+	cur := fr.block
+	target := cur.Succs[0]
+	if len(target.Instrs) > 0 {
+		if _, isPhi := target.Instrs[0].(*ssa.Phi); isPhi {
+			return false
+		}
+	}
+	conds := []*Term{c}
+	last := cur
+	next := cur.Succs[1]
+	for next != target && len(next.Preds) == 1 && len(next.Instrs) == 2 && len(next.Succs) == 2 && next.Succs[0] == target && next.Index > last.Index {
+		bo, ok := next.Instrs[0].(*ssa.BinOp)
+		if !ok || (bo.Op != token.EQL && bo.Op != token.NEQ && bo.Op != token.LSS && bo.Op != token.LEQ && bo.Op != token.GTR && bo.Op != token.GEQ) {
+			break
+		}
+		nif, ok := next.Instrs[1].(*ssa.If)
+		if !ok || nif.Cond != ssa.Value(bo) {
+			break
+		}
+		if refs := bo.Referrers(); refs == nil || len(*refs) != 1 {
+			break
+		}
+		v := in.binop(bo.Op, bo.X.Type(), fr.get(bo.X), fr.get(bo.Y))
+		var t *Term
+		switch vv := v.(type) {
+		case *Term:
+			t = vv
+		case bool:
+			t = in.tt.Bool(vv)
+		default:
+			return false
+		}
+		conds = append(conds, t)
+		last = next
+		next = next.Succs[1]
+	}
+	if len(conds) < 2 {
+		return false
+	}
+	disj := conds[0]
+	for _, t := range conds[1:] {
+		disj = in.tt.Or(disj, t)
+	}
+	take := true
+	if !disj.IsConst() {
+		take = in.decide(disj)
+	} else {
+		take = disj.K != 0
+	}
+	if take {
+		in.jump(fr, target)
+	} else {
+		fr.block = last
+		in.jump(fr, next)
+	}
+	return true
+}
+
 func (in *Interp) exec(fr *frame, instr ssa.Instruction) int {
 	in.curInstr = instr
 	switch i := instr.(type) {
@@ -927,6 +995,9 @@ func (in *Interp) exec(fr *frame, instr ssa.Instruction) int {
 		var take bool
 		if ct, ok := c.(*Term); ok && !ct.IsConst() {
 			if j := in.tryMerge(fr, i, ct); j {
+				return kJump
+			}
+			if in.tryOrChain(fr, i, ct) {
 				return kJump
 			}
 			take = in.decide(ct)
